@@ -789,6 +789,12 @@ def roundtrip_compare(ctx, replay, info, d, html, snap, st_real, doc_real, eligi
         ctx.mismatch("roundtrip-result", dict(replay, html=html[:600]), want, out.get("doc", out))
         return
     ctx.count("roundtrip_tie:result-agree")
+    mark_free = not any(k.startswith("mark:") for k in node_kinds(d)) and not d.marks
+    if out.get("noMarks") != mark_free:
+        ctx.mismatch("roundtrip-noMarks", replay, mark_free, out.get("noMarks"))
+        return
+    if mark_free and out.get("rtOk"):
+        ctx.count("roundtrip_tie:markfree-theorem-instances")      # roundtrip_markfree_partial applies: model = real = identity
     identity = want == info.node(d)
     ctx.count("roundtrip_tie:identity" if identity else "roundtrip_tie:not-identity")
     if out.get("rtOk"):
